@@ -41,6 +41,10 @@ def compare_interactions(spec, written, model, clause_prefix="links"):
         # tolerate twins: rows on twin atom sets may appear once or twice
         missing = Counter({r: c for r, c in missing.items() if (sec, r[0]) not in twin_rows})
         extra = Counter({r: c for r, c in extra.items() if (sec, r[0]) not in twin_rows})
+        if sec == "exclusions" and len({r["block"]["nrexcl"] for r in model.residues}) > 1:
+            # blocks of different exclusion distance: exclusions are generated on top of the ones the blocks and
+            # links list (C14 decides which); the listed ones are all there
+            extra = Counter()
         if not missing and not extra:
             continue
         row = (list(missing) + list(extra))[0]
